@@ -54,5 +54,17 @@ pub fn judge(ctx: &mut Ctx, pid: &str, t: &Triple, ops: &[Op], input: &str, theo
                  ("observed".into(), t.real.show()), ("impl_model".into(), t.impl_model.show()), ("theorem".into(), theorem.into())]);
         return false;
     }
+    // the same pipeline next to a near-duplicate of itself (one letter case / one flag changed) in ONE template:
+    // every section means what its own text says, whatever another section of the same call has computed
+    if matches!(pid, "C01" | "C08" | "C14" | "C15" | "C16") && (t.text.len() + input.len()) % 3 == 0 {
+        ctx.rep.bump("near_duplicate_section_templates");
+        if let Some((text, whole, parts)) = super::templates::near_duplicate_sections_disagree(ops, input) {
+            ctx.rep.violation(
+                format!("{pid}: format({text:?}, {input:?}) = {} but its sections, each formatted alone, give {}", whole.show(), parts.show()),
+                vec![("kind".into(), "property".into()), ("template".into(), text), ("input".into(), input.into()),
+                     ("observed".into(), whole.show()), ("expected".into(), parts.show()), ("theorem".into(), format!("{theorem} / C04_compose"))]);
+            return false;
+        }
+    }
     true
 }
